@@ -199,6 +199,28 @@ def statements():
     return out
 
 
+def stores():
+    """store target (parameter, local, global) x stored value (literal, folded cast, forwarded load, expression, call result,
+    the target itself) x position (first block, branch, loop body); after r5-C14-1: a stale use list only shows on the first
+    replacement batch of a function and only for stores to parameters"""
+    out = []
+    values = {"literal": ("", "2"), "cast of a literal": ("", "{T}(2)"), "cast of another literal type": ("", "{T}(2.5)"),
+              "forwarded load": ("{T} b = 3; ", "b"), "forwarded parameter": ("", "p"), "expression": ("", "p * 2 + 1"),
+              "call result": ("", "h(p)"), "itself": ("", "{x} + 1"), "cast of itself": ("", "{T}({x})")}
+    for T in ("int", "float", "uint"):
+        for tk, (glob, params, decl, x) in {"parameter": ("", f"{T} a, {T} p", "", "a"), "second parameter": ("", f"{T} p, {T} a", "", "a"),
+                                            "local": ("", f"{T} p", f"{T} a = p; ", "a"), "global": (f"{T} ga;\n", f"{T} p", "", "ga")}.items():
+            for vk, (pre, val) in values.items():
+                pre, val = pre.format(T=T, x=x), val.format(T=T, x=x)
+                st = f"{pre}{x} = {val};"
+                for pk, body in {"first block": f"{st} return {x} * p;", "branch": f"if (p > 1) {{ {st} }} return {x} * p;",
+                                 "loop body": f"for (int i = 0; i < 2; ++i) {{ {st} }} return {x} * p;",
+                                 "twice": f"{st} {st} return {x};"}.items():
+                    src = f"{glob}function h({T} q) -> {T} {{ return q + 1; }}\nexport function f({params}) -> {T} {{ {decl}{body} }}"
+                    out.append(_t(src, f"store to {tk} of {T}: {vk}, {pk}", ["stmt", "store"]))
+    return out
+
+
 def family(tier):
     items = binary_all() + binary_used() + swizzles() + indexing() + constructors() + assignments() + calls_and_returns() + statements()
     return items
